@@ -7,6 +7,6 @@ CONSTANTS
   Axes <- Axes4
   Datas <- Datas3
   Ids <- OneId
-INVARIANTS OnlyValidBuilt SameQuestionSameAnswer ElementsAgree AnsweredIffInRange FiniteNeverRejected ShapeOk BadBufferNeverOk KnotsReproduced PeriodicFunction LaneAlone
+INVARIANTS OnlyValidBuilt SameQuestionSameAnswer ElementsAgree AnsweredIffInRange FiniteNeverRejected ShapeOk EmptyBatchAnswered BadBufferNeverOk KnotsReproduced PeriodicFunction LaneAlone
 PROPERTY Immutable
 CHECK_DEADLOCK FALSE
